@@ -218,10 +218,10 @@ PROPS = {
     ),
     "C13": dict(
         title="Rotation, naming and warcinfo invariants of written files",
-        lean_modules=["Gowarc.Props.C13", "Gowarc.Props.C13names", "Gowarc.Props.C13seg", "Gowarc.Props.C04skel"],
+        lean_modules=["Gowarc.Props.C13", "Gowarc.Props.C13names", "Gowarc.Props.C13seg", "Gowarc.Props.C04skel", "Gowarc.Props.C13final"],
         audit_namespaces=["Gowarc.Props.C13"],
         n_quick=1500, n_thorough=12000,
-        required_theorems=["C13_info", "C13_no_info", "C13_names", "C13_callback", "C13_fit", "run_inv13", "failed_inv13", "C13_seg_fit", "write_size", "C13_writer_skeleton",
+        required_theorems=["C13_info", "C13_no_info", "C13_names", "C13_callback", "C13_fit", "run_inv13", "failed_inv13", "C13_seg_fit", "write_size", "C13_writer_skeleton", "C13_final_name", "C13_final_suffix", "C13_open_differs", "trimSuffix_append",
                            "C13_generator_names_unique", "C13_next_name_differs", "default_name", "default_pattern_tokens", "pad_serial_injective"],
         model_assumptions=["as C04; in the writer model file names are identified with the serial number of the NewWarcfileName call that produced them (the writer scenarios use a counting generator); the real PatternNameGenerator and internal.Sprintt are modelled in Model/NameGen.lean and tied by kind `namegen` (default and custom patterns, flags 0 and -, widths, %s %d %v %%, custom parameters shadowed by built-in ones); C13_generator_names_unique: with the default pattern (regenerated from warcfile.go) names from different serials differ, for any prefix, extension, host and time stamps of equal length; int32 wrap-around of the serial and patterns outside the modelled grammar are outside the model; time formatting, host name and IP are inputs",
                            "a record is never split across files by construction of the model (files are lists of whole members); that the bytes on disk are such lists is judged by the independent scanner"],
